@@ -206,6 +206,17 @@ static void cx_call_all(const secp256k1_context *c, jout *out, int full) {
                secp256k1_context_set_sha256_compression(a, cx_sha_fn); secp256k1_context_set_sha256_compression(a, NULL);
                b2 = secp256k1_context_clone(a); r = r && b2 != NULL; if (b2) secp256k1_context_destroy(b2); secp256k1_context_destroy(a); }
       f.ret = r; cx_end(&f, out, "f_private_lifecycle"); }
+    /* inputs long enough for a single SHA-256 write to hold several whole blocks (the block-wise path of sha256_write, which differs
+     * between the built-in and a replaced compression function): tagged hash with a 200-byte tag and a 300-byte message,
+     * BIP-340 signing and verification of a 300-byte message */
+    FAM { unsigned char lm[300]; unsigned char h[32]; int i;
+      cx_begin(&f); for (i = 0; i < 300; i++) lm[i] = (unsigned char)(i * 7 + 1);
+      f.ret = secp256k1_tagged_sha256(c, h, lm, 200, lm, 300); cx_add(&f, h, 32); cx_end(&f, out, "f_tagged_sha256_long"); }
+    FAM { unsigned char lm2[300]; unsigned char s64[64]; int i, r;
+      cx_begin(&f); for (i = 0; i < 300; i++) lm2[i] = (unsigned char)(i * 5 + 3);
+      memset(s64, 0, 64); r = secp256k1_schnorrsig_sign_custom(c, s64, lm2, 300, &CXI.kp, NULL); cx_add(&f, s64, 64);
+      if (r) r += 2 * secp256k1_schnorrsig_verify(c, s64, lm2, 300, &CXI.xpk);
+      f.ret = r; cx_end(&f, out, "f_schnorr_long_message"); }
 }
 /* a replaced compression function belongs to ONE context: install the counting function on a private context and hash through
  * the static context and through the exported (context-free) nonce function -- none of these calls may reach it */
